@@ -125,14 +125,15 @@ class C11(Check):
     # exhaustive small scope with state merging
 
     SMALL_OPS = [
-        ['A', '/a', ['GET'], None, False], ['A', '/ab', ['GET'], 'n1', False], ['A', '/abc', ['GET'], None, False],
-        ['A', '/a/<x>', ['GET'], 'n1', False], ['A', '/ab/<y>', ['POST'], None, True],
-        ['X', '/a'], ['X', '/ab'], ['X', '/abc'], ['X', '/a/<x>'], ['X', '/a*'], ['X', '/ab*'], ['XN', 'n1'],
-        ['H', '/a', False], ['H', '/ab', False], ['H', '/a/', True], ['XH', '/a'], ['XH', '/ab'],
+        ['A', '/a', ['GET'], None, False], ['A', '/ab', ['GET'], 'n1', False], ['A', '/abc', ['GET'], 'n2', False],
+        ['A', '/a/<x>', ['GET'], 'n1', False], ['A', '/ab/<y>', ['POST'], None, True], ['A', '/a/<x>/d', ['GET'], None, False],
+        ['X', '/a'], ['X', '/ab'], ['X', '/abc'], ['X', '/a/<x>'], ['X', '/a*'], ['X', '/ab*'], ['X', '/abc*'],
+        ['XN', 'n1'], ['XN', 'n2'],
+        ['H', '/a', False], ['H', '/ab', False], ['H', '/a/', True], ['H', '/a/b', False], ['XH', '/a'], ['XH', '/ab'],
     ]
-    SMALL_PROBES = ([['V', 'GET', p] for p in ['/a', '/ab', '/abc', '/a/q', '/ab/q', '/abx', '/a/']]
-                    + [['P', 'ab', ['POST', 'ANY']], ['L'], ['I', 'n1'], ['IR', '/a'], ['IR', '/ab'], ['IR', '/a/<z>'],
-                       ['K', '/a'], ['K', '/ab']])
+    SMALL_PROBES = ([['V', 'GET', p] for p in ['/a', '/ab', '/abc', '/a/q', '/ab/q', '/abx', '/a/', '/a/b/d', '/a/b']]
+                    + [['P', 'ab', ['POST', 'ANY']], ['P', 'a/b/d', ['GET']], ['L'], ['I', 'n1'], ['I', 'n2'], ['IR', '/a'],
+                       ['IR', '/ab'], ['IR', '/a/<z>'], ['K', '/a'], ['K', '/ab'], ['K', '/a/b']])
 
     def _dump(self, run, ops):
         """canonical state of the real router; handler / hook identities are named by the op
@@ -275,6 +276,9 @@ class C11(Check):
                     exp.append(('s', s, '/' + p[:n]))
                 if exp is not None and [h[:3] for h in sa[3]] != exp:
                     bad.append(('hooks-fired', f'GET /{path} matched {pat!r}: hooks ran {sa[3]!r}, expected {exp!r}'))
+                if exp is not None and sb[2] and [h[:3] for h in sb[3]] != exp:
+                    bad.append(('hooks-fired-fresh', f'GET /{path} matched {pat!r} on the rebuilt router: hooks ran '
+                                                     f'{sb[3]!r}, expected {exp!r}'))
         return bad
 
     def oracle(self, ops, every=True):
@@ -339,6 +343,14 @@ class C11(Check):
         cases.append([['A', '/a/b', ['GET'], None, False], ['H', '/a', False], ['XH', '/a'], ['V', 'GET', '/a/b']])
         cases.append([['A', '/a/b', ['GET'], None, False], ['A', '/a/b/c', ['GET'], None, False], ['H', '/a/b', False],
                       ['X', '/a/b'], ['V', 'GET', '/a/b/c']])
+        # a hook-only prefix at a branch point with two children, one of which goes (by rule / name / prefix*)
+        for rm in (['X', '/ab/c'], ['XN', 'n3'], ['X', '/ab/c*']):
+            cases.append([['A', '/ab/c', ['GET'], 'n3', False], ['A', '/ab/<y>', ['GET'], None, False], ['H', '/ab/', False],
+                          rm, ['V', 'GET', '/ab/q'], ['K', '/ab/'], ['P', 'ab/q', ['GET']]])
+        # a hooked literal child that dead-ends next to a wildcard sibling: its hook must not fire
+        cases.append([['A', '/docs/intro/x', ['GET'], None, False], ['A', '/docs/<page>/view', ['GET'], None, False],
+                      ['H', '/docs/intro', False], ['H', '/docs', False], ['V', 'GET', '/docs/intro/view'],
+                      ['P', 'docs/intro/view', ['GET']]])
         # a second name for a route, then removal by the first (fixed by 10700d6)
         cases.append([['A', '/a', ['GET'], 'n1', False], ['A', '/a', ['POST'], 'n2', False], ['XN', 'n1'], ['I', 'n2']])
         for _ in range(n):
